@@ -268,6 +268,7 @@ def run(prog, chk):
     glob_activity_rule(prog, chk)
     positional_join_rule(prog, chk)
     star_joiner_rule(prog, chk)
+    herestring_newline_rule(prog, chk)
 
 
 GLOB_DETECTOR = "brush_parser::pattern::pattern_has_glob_metacharacters"
@@ -468,3 +469,40 @@ def star_joiner_rule(prog, chk):
                  "instead of nothing — `IFS=; set -- x y; echo \"$*\"` prints `x y` (bash `xy`)")
     else:
         chk.ok("R4.8", "empty-ifs-kept-apart", "the joiner function does not collapse the empty IFS onto a default character", function=b.name)
+
+
+def herestring_newline_rule(prog, chk):
+    """R4.9: a here-string delivers the expanded word followed by exactly one newline — always. The push of the newline onto the text
+    that is handed to setup_open_file_with_contents must be unconditional: making it depend on the value (e.g. "unless it already ends
+    in a newline") makes `$'a\n'` and `a` indistinguishable for the reader."""
+    from dataflow import flow_back
+    chk.rule("R4.9", "here-strings: the newline appended to the expanded word is pushed unconditionally before the contents are handed to the pipe")
+    b = prog.impl_body("brush_core::interp::setup_redirect")
+    if not chk.anchor("R4.9", "brush_core::interp::setup_redirect", b):
+        return
+    c = cfg_of(b)
+    d = defs_of(b)
+    n = 0
+    for ob, ot in b.calls():
+        if not (ot.best_callee() or "").endswith("interp::setup_open_file_with_contents"):
+            continue
+        fl = flow_back(b, d, ot.args[0], all_args=False)
+        if not any(v.endswith("expansion::basic_expand_word") for f in fl for v in f.via):
+            continue          # the here-document arm takes its text from the parsed document
+        roots = {f.local for f in fl if f.local is not None}
+        pushes = []
+        for pb, pt in b.calls():
+            if (pt.best_callee() or "") == "alloc::string::String::push" and len(pt.args) == 2 and const_value(b, d, pt.args[1]) == 10:
+                pl = base_local(b, d, pt.args[0])
+                if pl in roots or pl is not None and any(pl == base_local(b, d, ot.args[0]) for _ in [0]):
+                    pushes.append(pb)
+        n += 1
+        if not pushes:
+            chk.fail("R4.9", b.name, "herestring-newline-missing", "no newline is appended to the here-string text before it is written to the pipe")
+        elif any(c.dominates(pb, ob) for pb in pushes):
+            chk.ok("R4.9", "herestring-newline-unconditional", "push('\\n') dominates setup_open_file_with_contents", function=b.name)
+        else:
+            chk.fail("R4.9", b.name, "herestring-newline-conditional",
+                     "the newline that terminates a here-string is appended only on some paths (line %s): a value that already ends in a newline arrives one byte "
+                     "short, so a reader cannot tell `a` from `a` followed by a newline" % b.blocks[pushes[0]].term.line)
+    chk.floor("R4.9", "here-string content sites", n, 1)
